@@ -268,6 +268,17 @@ fn place_stmt(s: &mut Src, h: &mut Helpers, stmt: Stmt) -> Vec<usize> {
 
 /// Optionally bury an int-typed expression inside a larger valid int expression.
 fn wrap(s: &mut Src, e: Expr, path: &mut Vec<usize>) -> Expr {
+    if s.chance(1, 12) {
+        // the leftmost operand of a long operator chain: (e) + 1 + 1 + ... (33-52 operators)
+        let k = 33 + s.below(20);
+        path.insert(0, 0);
+        let mut out = Expr::Paren(Box::new(e));
+        for i in 0..k {
+            path.insert(0, 0);
+            out = Expr::Bin(["+", "-"][i % 2], Box::new(out), Box::new(int_lit(1 + (i % 7) as u32)));
+        }
+        return out;
+    }
     match s.below(5) {
         0 | 1 => e,
         2 => {
